@@ -24,7 +24,7 @@ func validSigAlg(a string) bool { return a == AlgRSASHA1 || a == AlgRSASHA256 ||
 func (w *World) finishTask(t *Task) {
 	for guard := 0; guard < 1000; guard++ {
 		w.mu.Lock()
-		st := t.state
+		st := t.st()
 		w.mu.Unlock()
 		if st != tsParked {
 			return
